@@ -371,6 +371,24 @@ def suite_radial(ctx, res, n):
                         {"site": "radial-apply", "g": g, "t": [repr(v) for v in t]})
 
 
+def suite_reuse_fallback(ctx, res, n):
+    """the encodings chosen inside write_font._migrate_paths_to_ufo_glyphs (C16 anchor): the counter-transform of a reused gradient, incl. the
+    OverflowError fallback that wraps the gradient in a transform paint — real COLRv1 builds with reuse on and off must paint alike"""
+    from harness import fontgen
+    from harness.props import C06
+
+    for _ in range(n):
+        case = fontgen.make_tiny_reuse_case(ctx.rng.getrandbits(32))
+        on = fontgen.build(case)
+        off = fontgen.build(dict(case, config=dict(case["config"], reuse_tolerance=-1)), picosvgs=on.get("picosvgs"))
+        res.count(key=("reuse-fallback", case["id"]), nontrivial=True)
+        if "err" in on or "err" in off:
+            res.stat("reuse-fallback:build-err")
+            continue
+        res.stat("reuse-fallback:pairs")
+        C06.check_pair(ctx, res, case, on, off)
+
+
 def run(ctx, res):
     nano.init()
     res.rule = ("affines generated per branch of paint.transformed with values on/around every boundary "
@@ -381,6 +399,7 @@ def run(ctx, res):
     suite_decompose(ctx, res, ctx.budget(600, 12000))
     suite_linear(ctx, res, ctx.budget(800, 16000))
     suite_radial(ctx, res, ctx.budget(500, 10000))
+    suite_reuse_fallback(ctx, res, ctx.budget(8, 120))
 
 
 def search(ctx, res, broken):
